@@ -144,9 +144,12 @@ def dedup (l : List Bytes) : List Bytes :=
 def JUNK33 : Bytes := 0x02 :: List.replicate 32 0x5a
 def JUNK32 : Bytes := List.replicate 32 0x5a
 
-/-- `Adv(w)`: elements of `w`, the fixed items, the extras from the line -/
+/-- `Adv(w)`: elements of `w`, the fixed items, the extras from the line.  `[0x80]` (negative zero)
+    is the byte string no encoder of the library produces: non-empty, of size 1, yet FALSE for
+    `IF` / `VERIFY` / the final stack test - it separates "empty" from "false" in every rule that
+    relies on MINIMALIF / NULLFAIL / minimal numbers -/
 def advAlphabet (w extras : List Bytes) : List Bytes :=
-  dedup (w ++ [[], [1], List.replicate 32 0, [2], JUNK33, JUNK32] ++ extras)
+  dedup (w ++ [[], [1], List.replicate 32 0, [2], [0x80], JUNK33, JUNK32] ++ extras)
 
 def showStackBottomFirst (topFirst : List Bytes) : String :=
   if topFirst.isEmpty then "." else ",".intercalate (topFirst.reverse.map Hash.toHexW)
